@@ -642,6 +642,21 @@ func runSession(c *Ctx, sidBase string, mode string) {
 		c.Emit("views", J{"parties": parties, "rounds": sc0.Rounds, "cheater": cheater, "final": sc0.Final}, J{"ok": true})
 		c.Count("handler/views/" + mode)
 	}
+	if mode == "honest" {
+		// C07, judged against the in-order run of the model: whatever the schedule (any order, duplicates,
+		// replays of stale messages, early arrivals), every party ends with the in-order result
+		scs := make([]script, n)
+		terms := make([]string, n)
+		for j := 0; j < n; j++ {
+			scs[j] = *nodes[j].sc
+			if v, err := nodes[j].h.Result(); err == nil {
+				terms[j] = fmt.Sprintf("result:%d", v.(uint64))
+			} else {
+				terms[j] = nodes[j].observe()["term"].(string)
+			}
+		}
+		c.Emit("conc", J{"scripts": scs, "terms": terms, "stopper": -1, "steps": steps}, J{"ok": true})
+	}
 	// calls after the end: Stop on everyone, a late message
 	for j := 0; j < n; j++ {
 		if c.Intn(3) == 0 {
